@@ -170,6 +170,20 @@ def run_check(prop, tier, seed):
         return 3
     lres = lean_out["res"]
     audit = {}
+    if tier == "thorough":
+        # independent re-check of the compiled theorem modules by Lean's external checker (replays every declaration in the kernel)
+        import shutil, subprocess
+        exe = shutil.which("leanchecker")
+        mods = [m for m in plan.lean if lres.get(m) is not None and lres[m].ok]
+        if exe and mods:
+            t_lc = time.time()
+            try:
+                pr = subprocess.run([exe] + mods, env=dict(os.environ, LEAN_PATH=lb.rundir), capture_output=True, text=True, timeout=1200)
+                ok_lc, out_lc = pr.returncode == 0, (pr.stdout + pr.stderr)[-600:]
+            except Exception as ex:
+                ok_lc, out_lc = False, f"{type(ex).__name__}: {ex}"
+            verdicts.append(Verdict(f"P:{prop}:leanchecker", "discharged" if ok_lc else "unknown", "leanchecker", time.time() - t_lc, where=", ".join(mods), kind="P",
+                                    note="leanchecker re-checked the compiled modules " + ", ".join(mods) + ("" if ok_lc else ": " + out_lc)))
     # A6 for the hand-written Lean definitions of primitives: evaluated by Lean on samples, compared with CPython
     from . import primcheck
     pc = lres.get("HV.PrimCheck")
@@ -523,6 +537,12 @@ def run_replay(path):
         src = Sources(); db = build_db(); Constants(src).bind_python()
         c = db.get(cr["function"])
         vals = {k: RP.from_json(v) for k, v in cr["failing_input"].items()}
+        if getattr(c, "diff", None) is not None:
+            py_env, js_env = RP.bind_real_env()
+            r = RP.run_real([{"kind": "script", "steps": c.diff.steps({k: RP.to_json(v) for k, v in vals.items()}), "expansions": js_env, "stop_on_exc": True}])[0]
+            print("re-run on the current tree (last step of the script): observed", json.dumps(r["trace"][-1])[:800])
+            print("contract expects:", json.dumps(RP.to_json(RP.eval_spec(c.diff.expected, dict(vals))))[:800] if c.diff.expected else "(see raises)")
+            return 0
         r = RP.run_real([RP.call_job(src, c, vals)])[0]
         kind, exp = RP.expected_outcome(c, vals)
         print("re-run on the current tree: observed", json.dumps(r)[:800])
